@@ -116,6 +116,24 @@ def behaviour(res, inproc, rng, tier):
         src, desc = gen_enum(rng, i, conv)
         cf.add(i, src, main_call=f"c{i}::run();")
         descs[str(i)] = desc
+    # pointer placeholders in a variant's own literal under a wrapping enum-level format: `_variant` is the text the
+    # variant prints by itself, so `{_0:p}` / `{f:p}` print the pointer the field holds
+    k = n
+    for X, an, shared in (("Display", "display", '"<{_variant}>"'), ("Display", "display", '"{_variant} and {}", 7'),
+                          ("Debug", "debug", None), ("LowerHex", "lower_hex", '"[{_variant}]"'), ("Pointer", "pointer", '"({_variant})"')):
+        if X == "Debug":
+            continue    # Debug has no enum-level format attribute
+        pre, post = {'"<{_variant}>"': ("<", ">"), '"{_variant} and {}", 7': ("", " and 7"), '"[{_variant}]"': ("[", "]"), '"({_variant})"': ("(", ")")}[shared]
+        src = (f"#[derive(derive_more::{X})] #[{an}({shared})] pub enum E {{ #[{an}(\"{{_0:p}}\")] A(&'static u8), "
+               f"#[{an}(\"{{f:p}}|{{}}\", 1)] B {{ f: &'static u8 }}, #[{an}(\"{{:p}}~{{_1}}\", *_0)] C(&'static u8, u8) }}\n"
+               "pub static Z: u8 = 9;\n"
+               f"pub fn run() {{ let ch = \"{ {'Display': '', 'LowerHex': 'x', 'Pointer': 'p'}[X] }\"; let _ = ch;\n"
+               f"  check(\"{k}\", \"A\", format!(\"{{:{ {'Display': '', 'LowerHex': 'x', 'Pointer': 'p'}[X] }}}\", E::A(&Z)), format!(\"{pre}{{:p}}{post}\", &Z));\n"
+               f"  check(\"{k}\", \"B\", format!(\"{{:{ {'Display': '', 'LowerHex': 'x', 'Pointer': 'p'}[X] }}}\", E::B {{ f: &Z }}), format!(\"{pre}{{:p}}|1{post}\", &Z));\n"
+               f"  check(\"{k}\", \"C\", format!(\"{{:{ {'Display': '', 'LowerHex': 'x', 'Pointer': 'p'}[X] }}}\", E::C(&Z, 4)), format!(\"{pre}{{:p}}~4{post}\", &Z)); }}")
+        cf.add(k, src, main_call=f"c{k}::run();")
+        descs[str(k)] = f"#[derive({X})] #[{an}({shared})] enum E {{ #[{an}(\"{{_0:p}}\")] A(&'static u8), #[{an}(\"{{f:p}}|{{}}\", 1)] B {{ f: &'static u8 }}, #[{an}(\"{{:p}}~{{_1}}\", *_0)] C(&'static u8, u8) }}"
+        k += 1
     d = C.scratch_crate("c07-enums", cf.source('unsafe { println!("DONE checks={} fails={}", CHECKS, FAILS); }'))
     try:
         rc, out, err = C.scratch_run(d)
